@@ -141,9 +141,13 @@ def main(argv):
                                 "outside the canonical ranges) is handled differently by the two cores, for many pointer/stack/"
                                 "block instructions"),
                       ("@alias", "bits 20-23 of an absolute address or pointer select the internal window on one core only "
-                                 "(Python masks to 20 bits, Rust passes 24 bits to the bus)")):
+                                 "(Python masks to 20 bits, Rust passes 24 bits to the bus)"),
+                      ("@fetch-top", "an instruction whose bytes reach or cross the top of the external space (PC in 0xFFFF0..0xFFFFF) is "
+                                     "fetched differently by the two cores: Rust wraps the byte after a PRE prefix (and the pushed return "
+                                     "address of CALLF) at 20 bits while Python continues linearly into 0x100000 (the internal window); "
+                                     "the cores may even decode different instructions there (Rust: 'unsupported EMEM/IMEM mode')")):
         ws = sorted(w for w in fields if w.endswith(cls))
-        if not ws:
+        if not ws and cls != "@fetch-top":
             continue
         ex = None
         for w in ws:
